@@ -1,0 +1,72 @@
+//go:build verif
+
+// Contracts for package snapshots, checked by /verif (govc). Ghost functions
+// and comments only: the verif tag cannot change behaviour.
+package snapshots
+
+func forall(lo, hi int, f func(int) bool) bool {
+	for i := lo; i < hi; i++ {
+		if !f(i) {
+			return false
+		}
+	}
+	return true
+}
+
+//@ type Store
+//@   guards stateMu: state, sourceSplitters, jobSnapshot.*
+//@   lockinv stateMu: self.state.pendingSnapshot != nil ==> self.state.pendingSnapshot.id == self.state.checkpointID
+//@   lockinv stateMu: self.state.pendingSnapshot != nil ==> !self.state.pendingSnapshot.isComplete()
+
+//@ func newJobSnapshot
+//@   property C12
+//@   ensures result != nil && result.id == checkpointID && !result.isSavepoint
+//@   ensures len(result.operatorCheckpoints) == 0 && len(result.splitStates) == 0
+//@   ensures forall(func(k string) bool { return has(result.operatorIDsComplete, k) == exists(0, len(operatorIDs), func(j int) bool { return operatorIDs[j] == k }) })
+//@   ensures forall(func(k string) bool { return !result.operatorIDsComplete[k] })
+//@   ensures forall(func(k string) bool { return has(result.sourceRunnerIDsComplete, k) == exists(0, len(sourceRunnerIDs), func(j int) bool { return sourceRunnerIDs[j] == k }) })
+//@   ensures forall(func(k string) bool { return !result.sourceRunnerIDsComplete[k] })
+//@   loop 0:
+//@     invariant forall(func(k string) bool { return has(wIDs, k) == exists(0, idx_, func(j int) bool { return operatorIDs[j] == k }) })
+//@     invariant forall(func(k string) bool { return !wIDs[k] })
+//@   loop 1:
+//@     invariant forall(func(k string) bool { return has(srIDs, k) == exists(0, idx_, func(j int) bool { return sourceRunnerIDs[j] == k }) })
+//@     invariant forall(func(k string) bool { return !srIDs[k] })
+
+//@ func jobSnapshot.addOperatorSnapshot
+//@   property C12
+//@   requires req != nil
+//@   modifies s.operatorIDsComplete, s.operatorCheckpoints
+//@   ensures (!has(old(s.operatorIDsComplete), req.OperatorId) || old(s.operatorIDsComplete[req.OperatorId])) ==>
+//@           result != nil && s.operatorIDsComplete == old(s.operatorIDsComplete) && s.operatorCheckpoints == old(s.operatorCheckpoints)
+//@   ensures (has(old(s.operatorIDsComplete), req.OperatorId) && !old(s.operatorIDsComplete[req.OperatorId])) ==>
+//@           result == nil && s.operatorIDsComplete[req.OperatorId] && has(s.operatorIDsComplete, req.OperatorId) &&
+//@           forall(func(k string) bool { return k != req.OperatorId ==> (s.operatorIDsComplete[k] == old(s.operatorIDsComplete[k]) && has(s.operatorIDsComplete, k) == has(old(s.operatorIDsComplete), k)) }) &&
+//@           len(s.operatorCheckpoints) == old(len(s.operatorCheckpoints)) + 1 && s.operatorCheckpoints[old(len(s.operatorCheckpoints))] == req &&
+//@           forall(0, old(len(s.operatorCheckpoints)), func(j int) bool { return s.operatorCheckpoints[j] == old(s.operatorCheckpoints[j]) })
+
+//@ func jobSnapshot.addSourceRunnerSnapshot
+//@   property C12
+//@   requires ckpt != nil
+//@   modifies s.sourceRunnerIDsComplete, s.splitStates
+//@   ensures (!has(old(s.sourceRunnerIDsComplete), ckpt.SourceRunnerId) || old(s.sourceRunnerIDsComplete[ckpt.SourceRunnerId])) ==>
+//@           result != nil && s.sourceRunnerIDsComplete == old(s.sourceRunnerIDsComplete) && s.splitStates == old(s.splitStates)
+//@   ensures (has(old(s.sourceRunnerIDsComplete), ckpt.SourceRunnerId) && !old(s.sourceRunnerIDsComplete[ckpt.SourceRunnerId])) ==>
+//@           result == nil && s.sourceRunnerIDsComplete[ckpt.SourceRunnerId] && has(s.sourceRunnerIDsComplete, ckpt.SourceRunnerId) &&
+//@           forall(func(k string) bool { return k != ckpt.SourceRunnerId ==> (s.sourceRunnerIDsComplete[k] == old(s.sourceRunnerIDsComplete[k]) && has(s.sourceRunnerIDsComplete, k) == has(old(s.sourceRunnerIDsComplete), k)) }) &&
+//@           len(s.splitStates) == old(len(s.splitStates)) + len(ckpt.SplitStates) &&
+//@           forall(0, old(len(s.splitStates)), func(j int) bool { return s.splitStates[j] == old(s.splitStates[j]) }) &&
+//@           forall(0, len(ckpt.SplitStates), func(j int) bool { return s.splitStates[old(len(s.splitStates))+j] == ckpt.SplitStates[j] })
+
+//@ func jobSnapshot.isComplete
+//@   property C12
+//@   modifies nothing
+//@   ensures result == (forall(func(k string) bool { return has(s.operatorIDsComplete, k) ==> s.operatorIDsComplete[k] }) &&
+//@                      forall(func(k string) bool { return has(s.sourceRunnerIDsComplete, k) ==> s.sourceRunnerIDsComplete[k] }))
+
+//@ func jobSnapshot.toProto
+//@   property C12
+//@   modifies nothing
+//@   ensures result != nil && result.Id == s.id && result.OperatorCheckpoints == s.operatorCheckpoints
+//@   ensures len(result.SourceCheckpoints) == 1 && result.SourceCheckpoints[0].CheckpointId == s.id &&
+//@           result.SourceCheckpoints[0].SplitStates == s.splitStates && result.SourceCheckpoints[0].SplitterState == s.splitterState
